@@ -83,8 +83,17 @@ def _partial(cls):
     if cls.__module__.startswith("aiortc") and cls.__name__ in ("RTCRtpReceiver", "RTCRtpSender", "RTCPeerConnection",
                                                                 "RTCSctpTransport", "RTCDtlsTransport", "RTCDataChannel"):
         if cls not in _PARTIAL:
-            _PARTIAL[cls] = type(cls.__name__, (cls,), {"__getattr__": lambda self, n: (_ for _ in ()).throw(AttributeError(n))
-                                                        if (n.startswith("__") and n.endswith("__")) else _Stub()})
+            def _emit(self, *a, **kw):
+                # a rebuilt object has no listener table: nobody listens
+                return cls.emit(self, *a, **kw) if "_events" in self.__dict__ else False
+
+            def _ral(self, *a, **kw):
+                return cls.remove_all_listeners(self, *a, **kw) if "_events" in self.__dict__ else None
+            ns = {"__getattr__": lambda self, n: (_ for _ in ()).throw(AttributeError(n))
+                  if (n.startswith("__") and n.endswith("__")) else _Stub()}
+            if hasattr(cls, "emit"):
+                ns.update(emit=_emit, remove_all_listeners=_ral)
+            _PARTIAL[cls] = type(cls.__name__, (cls,), ns)
         return _PARTIAL[cls]
     return cls
 FIELD_TYPES: dict = {}      # class name -> {field: declared type text}, filled from the sidecars in prepare()
@@ -217,12 +226,15 @@ def search(prep, spec, timeout, excl=()) -> dict:
         hit = scenario_search(prep, sp, rng, inst, timeout, excl)
         if hit is not None:
             return hit
+    pool = [dict(w) for w in seeds if isinstance(w, dict)]
     for i in range(int(sp.get("n", 200))):
-        if seeds:
-            inputs = seeds.pop(0)
-        else:
-            inputs = {}
+        # the sidecar's witnesses come first; a witness that leaves a parameter open (typically self) is completed with
+        # generated values, and every third later draw re-uses a witness's arguments with a newly generated rest
+        inputs = dict(seeds.pop(0)) if seeds else (dict(rng.choice(pool)) if pool and i % 3 == 0 else {})
+        if True:
             for k, t in sp["types"].items():
+                if k in inputs:
+                    continue
                 b = builders.BUILDERS.get(t.strip())
                 made = None
                 if b is not None and rng.random() < 0.85:
@@ -312,6 +324,14 @@ def judge(prep, inputs_json: dict, timeout: float, excl=()) -> dict:
         inputs_json = {k: v for k, v in inputs_json.items() if k != "self"}
         inputs = {k: v for k, v in inputs.items() if k != "self"}
         inputs["self"] = owner.__new__(owner)
+    emit_st = {"viol": None, "snap": None, "fields": []}
+    if owner is not None and c.at_emit:
+        for q, cs_ in reg.classes.items():
+            if q.split(":")[-1] == owner.__name__:
+                for f_, t_ in cs_.fields.items():
+                    t_ = t_[4:-1] if t_.startswith("opt[") else t_
+                    if t_ in ("int", "bool", "str", "float"):
+                        emit_st["fields"].append(f"_{owner.__name__.lstrip('_')}{f_}" if f_.startswith("__") and not f_.endswith("__") else f_)
     # ghost event log: classes whose sidecar declares the ghost field `emitted` record the names passed to emit()
     for obj in inputs.values():
         cs = next((c_ for q, c_ in reg.classes.items() if q.split(":")[-1] == type(obj).__name__), None)
@@ -321,6 +341,15 @@ def judge(prep, inputs_json: dict, timeout: float, excl=()) -> dict:
 
             def _emit(name, *a, _o=obj, _real=getattr(type(obj), "emit", None), **kw):
                 _o.emitted.append(name)
+                if _o is inputs.get("self") and c.at_emit and "old" in emit_st:
+                    # the state a listener observes (same clauses as the prover's at_emit obligations)
+                    for k_, r_ in enumerate(c.at_emit):
+                        try:
+                            if emit_st["viol"] is None and not ctx.evaluate(r_, dict(emit_st["local"]), emit_st["old"]):
+                                emit_st["viol"] = (k_, r_)
+                        except Exception:
+                            pass
+                    emit_st["snap"] = {f_: getattr(_o, f_, None) for f_ in emit_st["fields"]}
                 try:
                     return _real(_o, name, *a, **kw) if _real is not None else False
                 except Exception:
@@ -357,6 +386,8 @@ def judge(prep, inputs_json: dict, timeout: float, excl=()) -> dict:
         except Exception:
             pass
     old_local = ctx.snapshot_all(local)
+    emit_st["old"] = old_local
+    emit_st["local"] = local
     # 2. call with watchdog
     args = dict(inputs)
     call = fn
@@ -412,6 +443,18 @@ def judge(prep, inputs_json: dict, timeout: float, excl=()) -> dict:
         return {"status": "violation", "kind": "raises", "exception": f"{type(raised).__module__}.{name}",
                 "detail": f"{name}: {raised}", "traceback": tb[-3:]}
     local["result"] = result
+    if emit_st["viol"] is not None:
+        return {"status": "violation", "kind": f"at_emit[{emit_st['viol'][0]}]", "clause": emit_st["viol"][1],
+                "detail": "false when self.emit() was called: a listener observes this state"}
+    if emit_st["snap"] is not None and "self" in inputs:
+        for f_, v_ in emit_st["snap"].items():
+            cur_ = getattr(inputs["self"], f_, None)
+            if not all(x is None or isinstance(x, (int, float, str, bool)) for x in (cur_, v_)):
+                continue     # stand-in for a field the counter-model leaves open: nothing to compare
+            if cur_ != v_:
+                return {"status": "violation", "kind": f"after_emit[{f_.split('__')[-1] if '__' in f_ else f_}]",
+                        "detail": f"self.{f_} was {v_!r} when emit() was called and is {getattr(inputs['self'], f_, None)!r} at exit: "
+                                  "written after listeners ran"}
     for exc, cond in c.raises.items():
         if cond is not None and not cond.startswith("?"):
             try:
